@@ -827,6 +827,26 @@ func runC20(r *Rec) {
 	}
 }
 
+// c20For runs a slice of the layer-2 episodes (bond and liquidity-pool episodes on the real keeper and msg server) inside
+// the check of another property: the correspondence with the Layer2 model counts there too (C04 restates its solvency
+// theorems), oracle failures keep their C20 keys and are left to C20's own check unless aliased.
+func c20For(r *Rec, prop string, alias map[string]string) {
+	r.OnlyProp, r.Alias = prop, alias
+	n := 18
+	if r.Tier == "thorough" {
+		n = 240
+	}
+	for i := 0; i < n; i++ {
+		if i%3 != 0 {
+			c20LpEpisode(r, 1000+i)
+		} else {
+			c20BondEpisode(r, 1000+i)
+		}
+	}
+	r.OnlyProp, r.Alias = "", nil
+	r.Mark("l2 done")
+}
+
 var c20Ratios = []string{"0.5", "1", "0.000010000000000000", "2.5", "0.333333333333333333", "0.000001500000000000"}
 var c20Fees = []string{"0", "0.01", "0.003", "0.1", "0.5", "0.015"}
 
